@@ -12,10 +12,16 @@ class HarnessError(BaseException):
     """A bug or an impossible situation in the harness itself (never a VIOLATION)."""
 
 
+FALSY = [False]  # per-run knob: user exception instances are falsy (an exception class with __len__/__bool__)
+
+
 class SimError(Exception):
     def __init__(self, tag):
         Exception.__init__(self, tag)
         self.tag = tag
+
+    def __bool__(self):
+        return not FALSY[0]
 
 
 class SimBaseError(BaseException):
@@ -24,6 +30,9 @@ class SimBaseError(BaseException):
     def __init__(self, tag):
         BaseException.__init__(self, tag)
         self.tag = tag
+
+    def __bool__(self):
+        return not FALSY[0]
 
 
 class ModelResult(GeneratorExit):
